@@ -1,8 +1,10 @@
 import json,glob,os,re
 notes=json.load(open('/verif/seeded/NOTES.json'))
+try: results=json.load(open('/verif/seeded/RESULTS.json'))
+except Exception: results={}
 rows=[]
 n_missed=0
-for d in sorted(glob.glob('/verif/seeded/C*')):
+for d in sorted(glob.glob('/verif/seeded/C[0-9][0-9]-*')):
     n=os.path.basename(d)
     m=json.load(open(d+'/meta.json'))
     summ=m.get('summary') or m.get('change') or ''
@@ -15,7 +17,13 @@ for d in sorted(glob.glob('/verif/seeded/C*')):
     conf=m.get('confirmed',{})
     c="confirmed" if conf.get('demo_exit_clean')==0 and conf.get('demo_exit_patched') not in (0,None) and conf.get('suite_stable_pass_still_passing') else "confirmation pending"
     if n in notes: n_missed+=1
-    res=notes.get(n, "caught (quick): "+", ".join("%d× %s"%(v,k) for k,v in kinds.items()))
+    r=results.get(n)
+    if r is not None:
+        kinds=r.get('kinds') or kinds
+        final=("caught" if r.get('exit')==1 else "NOT CAUGHT (exit %s)"%r.get('exit'))+" (quick, final re-run): "+", ".join("%d× %s"%(v,k) for k,v in sorted(kinds.items()))
+    else:
+        final="caught (quick): "+", ".join("%d× %s"%(v,k) for k,v in kinds.items())
+    res=(notes[n]+" — "+final) if n in notes else final
     rows.append("| %s | %s | %s | %s; %s |" % (n, summ.replace('|','/'), needs.replace('|','/'), res, c))
 p='/verif/DESIGN.md'
 s=open(p).read()
@@ -23,7 +31,10 @@ a=s.index("| seed | change (from the seeder's meta.json) | needs | result of `bi
 b=s.index("## Appendix A")
 tail_marker="---------------------------------------------------------------------------------------------------\n\n"
 new="| seed | change (from the seeder's meta.json) | needs | result of `bin/seedtest` |\n|---|---|---|---|\n"+"\n".join(rows)+"\n\n"
-new+="%d seeded changes in four independent rounds (from round b on the seeder was told which *mechanisms* earlier rounds had used and asked for a different clause of the property).  %d were missed at first and are caught after the strengthening named in their row (bold); every catch is an `impl-counterexample` replay — a concrete input/history on which the property fails on the real code — none relies on `no-failing-input-found`.  Lesson recorded for the technique: every miss was a *generator/tie blind spot* (an entry point, option value, object route or input shape that neither the model nor the harness exercised), never a wrong theorem; the theorems do not help where the tie does not reach.\n\n" % (len(rows), n_missed)
+rounds=sorted(set(os.path.basename(d).split('-')[1] for d in glob.glob('/verif/seeded/C[0-9][0-9]-*')))
+nofail=[n for n,r in results.items() if r.get('exit')==1 and set(r.get('kinds',{}))-{'impl-counterexample'} and 'impl-counterexample' not in r.get('kinds',{})]
+notcaught=[n for n,r in results.items() if r.get('exit')!=1]
+new+="%d seeded changes in %d independent rounds (%s; from round b on the seeder was told which *mechanisms* earlier rounds had used and asked for a different clause of the property).  %d were missed at first (or, where the row says so, would have been) and are caught after the strengthening named in their row (bold).  Final re-run of all of them (`bin/seedall`, results in `seeded/RESULTS.json`): %d not caught%s; %d caught only through a broken obligation/correspondence without a concrete failing input%s; all others with at least one `impl-counterexample` replay — a concrete input/history on which the property fails on the real code.  Lesson recorded for the technique: every miss was a *generator/tie blind spot* (an entry point, option value, object route, input type or call sequence that neither the model nor the harness exercised), never a wrong theorem; the theorems do not help where the tie does not reach, which is why the builders' phase 4 (hand-made mutants per clause and dimension, `corpus/Cxx/MUTANTS.md`) went looking for such blind spots ahead of the seeders.\n\n" % (len(rows), len(rounds), ", ".join(rounds), n_missed, len(notcaught), (" ("+", ".join(notcaught)+")") if notcaught else "", len(nofail), (" ("+", ".join(nofail)+")") if nofail else "")
 s=s[:a]+new+tail_marker+s[b:]
 open(p,'w').write(s)
 print(len(rows),'rows',n_missed,'missed-at-first')
